@@ -40,6 +40,8 @@ def make_policy(pol):
         return driver.RandomPolicy(pol[1], p_step=pol[2])
     if kind == 'eager':
         return driver.EagerPolicy(pol[1])
+    if kind == 'hold':
+        return driver.HoldPolicy(pol[1], p_step=pol[2], prefix=pol[3])
     if kind == 'offset':
         return driver.OffsetPolicy(pol[1], pol[2], pol[3])
     if kind == 'script':
@@ -140,7 +142,7 @@ def work(chunk):
                     c2 = dict(cfg)
                     c2['schedule'] = [list(s) for s in ex.schedule]
                     cfgs[tid] = c2
-                    traces.append(tlc.make_trace(tid, pi, lines, amb=P['amb'], overlap=cfg.get('overlap', False)))
+                    traces.append(tlc.make_trace(tid, pi, lines, amb=P['amb'], faulty=bool(cfg.get('faulty')), overlap=cfg.get('overlap', False)))
                     nexec += 1
             except Exception:  # noqa: BLE001 - a harness crash on one program must not hide the rest
                 errors.append('%s cfg %d: %s' % (name, ci, traceback.format_exc()[-1500:]))
@@ -177,6 +179,11 @@ def base_cfgs(seed, nrand, eager_limit, **extra):
     modes = [{'ev': {'mode': 'yield'}}, {'save': {'mode': 'yield'}}, {'ev': {'mode': 'yield'}, 'save': {'mode': 'yield'}}]
     for i in range(max(1, nrand // 2)):
         cfgs.append(dict(policy=['random', seed * 100003 + 500 + i, [0.5, 0.8, 0.95][i % 3]], collab=modes[i % 3], **extra))
+    # a collaborator that raises (the k-th event callback / save fails), next to a second event manager that suspends:
+    # the reference value is unknown then (faulty=True: only the clauses that need no reference semantics apply)
+    for i, k in enumerate((2, 3, 5, 8)[: max(1, nrand // 4)]):
+        col = {'ev': {'raise_at': [k]}, 'ev2': {'mode': 'yield'}} if i % 2 == 0 else {'save': {'raise_at': [k]}, 'ev2': {'mode': 'yield'}}
+        cfgs.append(dict(policy=['hold' if i % 2 == 0 else 'random', seed * 100003 + 900 + i, 0.8, 'ev2'], collab=col, faulty=True, **extra))
     return cfgs
 
 
